@@ -276,6 +276,7 @@ type vhMeltQuote struct {
 	Amount, FeeReserve uint64
 	State              nut05.State
 	Outcome            int // scripted outcome of the payment: 0 paid, 1 pending, 2 failed (unpaid)
+	Lose               int // transport fault on POST /v1/melt/bolt11: 0 none, 1 the request never reaches the mint, 2 the response is lost
 }
 
 var vhTheMint *vhMint
@@ -518,6 +519,10 @@ func vhHTTP(method, url string, body []byte) (int, []byte) {
 			return vhErr("bad request", cashu.StandardErrCode)
 		}
 		q, ok := m.MeltQ[req.Quote]
+		if ok && q.Lose == 1 {
+			q.Lose = 0
+			return 502, []byte("bad gateway")
+		}
 		if !ok || q.State != nut05.Unpaid {
 			return vhErr("quote not meltable", cashu.MeltQuoteErrCode)
 		}
@@ -542,6 +547,10 @@ func vhHTTP(method, url string, body []byte) (int, []byte) {
 			q.State = nut05.Pending
 		default:
 			q.State = nut05.Unpaid
+		}
+		if q.Lose == 2 {
+			q.Lose = 0
+			return 502, []byte("bad gateway")
 		}
 		return vhJSON(200, &nut05.PostMeltQuoteBolt11Response{Quote: req.Quote, Amount: q.Amount, FeeReserve: q.FeeReserve, State: q.State, Unit: "sat", Preimage: "00"})
 	case path == "/v1/checkstate":
